@@ -36,6 +36,8 @@ func (e *Engine) knownActive(assertID, kfID string) bool {
 	return false
 }
 
+var evidenceDir string
+
 func main() {
 	verifRoot := flag.String("verif", "/verif", "verification root")
 	repoRoot := flag.String("repo", "/repo", "repository root")
@@ -43,6 +45,7 @@ func main() {
 	only := flag.String("entry", "", "run only this entry")
 	noReplay := flag.Bool("no-native-replay", false, "do not run native replays (debug)")
 	verbose := flag.Bool("v", false, "verbose")
+	flag.StringVar(&evidenceDir, "evidence-dir", "", "write the evidence file here instead of <verif>/evidence (used when checking a scratch tree)")
 	flag.Parse()
 	if *replay != "" {
 		os.Exit(replayFile(*verifRoot, *repoRoot, *replay))
@@ -532,7 +535,11 @@ func (e *Engine) writeEvidence(results []*EntryResult, tier string, seed int64, 
 		"wall_s":      wall,
 		"violations":  violations,
 	}
-	writeJSON(filepath.Join(e.verifRoot, "evidence", e.cfg.Property+".json"), ev)
+	dir := filepath.Join(e.verifRoot, "evidence")
+	if evidenceDir != "" {
+		dir = evidenceDir
+	}
+	writeJSON(filepath.Join(dir, e.cfg.Property+".json"), ev)
 }
 
 func max1(n int) int {
